@@ -1,13 +1,13 @@
 #!/bin/bash
 # usage: confirm_seed.sh <PROP> <i> [fullsuite]  -- confirm a seeded change in the scratch worktree /tmp/seed-<PROP>
 # (demo fails with the patch, passes without; the property's check reports a VIOLATION; optionally the full suite)
-P=$1; I=$2; W=/tmp/seed-$P; O=/tmp/seed-$P-out/$I
+P=$1; I=$2; PFX=${SEEDPFX:-seed}; W=/tmp/$PFX-$P; O=/tmp/$PFX-$P-out/$I
 git -C $W checkout -q -- . ; git -C $W clean -fdq -e '*.pyc' >/dev/null 2>&1
 echo "== demo on clean tree"; RDFLIB_TREE=$W timeout 300 /venv/bin/python $O/demo.py >/dev/null 2>&1; echo "exit $?"
 git -C $W apply $O/patch.diff || { echo "PATCH DOES NOT APPLY"; exit 2; }
 echo "== demo with patch"; RDFLIB_TREE=$W timeout 300 /venv/bin/python $O/demo.py 2>&1 | tail -2; echo "exit ${PIPESTATUS[0]}"
 echo "== check"; cd /verif && RV_REPO=$W timeout 1500 ./check $P ${CHECKARGS} 2>&1 | tail -4
 if [ "$3" = "fullsuite" ]; then
-  echo "== full suite"; cd $W && /venv/bin/python -m pytest -q -p no:cacheprovider --timeout=900 -q test rdflib 2>&1 | grep FAILED | sed 's/ - .*//' | sort > /tmp/seed-$P-out/$I/failed.txt; diff /var/tmp/rv/bf.txt /tmp/seed-$P-out/$I/failed.txt > /dev/null && echo "suite: same failures as baseline" || { echo "suite: DIFFERENT"; diff /var/tmp/rv/bf.txt /tmp/seed-$P-out/$I/failed.txt | head; }
+  echo "== full suite"; cd $W && /venv/bin/python -m pytest -q -p no:cacheprovider --timeout=900 -q test rdflib 2>&1 | grep FAILED | sed 's/ - .*//' | sort > $O/failed.txt; diff /var/tmp/rv/bf.txt $O/failed.txt > /dev/null && echo "suite: same failures as baseline" || { echo "suite: DIFFERENT"; diff /var/tmp/rv/bf.txt $O/failed.txt | head; }
 fi
 git -C $W checkout -q -- .
